@@ -8,6 +8,7 @@ open ElaVerif.Index ElaVerif.Node Driver BlockSpec
     reset
     init <reward> <maturity> <minFee> <guardFrom> <checkRewardFrom> <genesis block>
     deliver <block>        → main|side|orphan|err <tipHeight> <tipId>
+    deliverc <block>       same as deliver (the real side passes a dummy confirmation, ignored in POW mode)
     deliverw <ts> <bits> <block>   same, with the header difficulty (work = CalcWork(bits))
     submit <tx>            → ok | err
     irr <lih> <dpos 0|1> <revertStart>     (C30: sets the DPoS state fields the guard reads)
@@ -57,6 +58,12 @@ def step (s : NState) : List String → NState × String
       (initState { reward := r, maturity := m, minFee := f, guardFrom := g, checkRewardFrom := c } b, "ok")
     | _, _, _, _, _, _ => (s, "bad-op")
   | "deliver" :: ts =>
+    match pBlock ts with
+    | some b =>
+      let (s', r) := processBlock s b
+      (s', s!"{replyStr r} {s'.tip.height} {natToHex s'.tip.id}")
+    | none => (s, "bad-op")
+  | "deliverc" :: ts =>
     match pBlock ts with
     | some b =>
       let (s', r) := processBlock s b
